@@ -9,6 +9,7 @@ import (
 	"runtime"
 	"sort"
 	"strings"
+	"sync"
 	"sync/atomic"
 	"time"
 
@@ -449,6 +450,13 @@ func runWallet(r *evid.Run, dir string, idx int, cs int64) {
 				return
 			}
 		}
+		// ---- two resynchronisations of the running wallet in quick succession: the
+		// second finishes while the pass started for the first is still handing over
+		if rg.Intn(7) == 0 {
+			if !overlappingResyncs(r, f, &log, fail) {
+				return
+			}
+		}
 		if rg.Intn(6) == 0 {
 			f.MinePending()
 			refunds = nil
@@ -545,6 +553,148 @@ func runWallet(r *evid.Run, dir string, idx int, cs int64) {
 		}
 		r.Sample(map[string]any{"case_seed": cs, "attempts": log[:n]})
 	}
+}
+
+// overlappingResyncs requests two rescans of the running wallet (the production
+// path: rescan manager -> RescanFinished -> detached rebroadcast pass).  The
+// backend holds its answer to the first hand-over of the first pass until the
+// second rescan has finished; every answer is "already in mempool", which leaves
+// wallet and node unchanged.  Each unconfirmed transaction must be handed over at
+// least once after the second resynchronisation finished.
+func overlappingResyncs(r *evid.Run, f *wh.Funded, log *[]string, fail func(string, string)) bool {
+	want := unminedSet(f)
+	if len(want) == 0 {
+		return true
+	}
+	strs, err := f.W.SortedActivePaymentAddresses()
+	if err != nil || len(strs) == 0 {
+		return true
+	}
+	own, err := btcutil.DecodeAddress(strs[0], f.W.ChainParams())
+	if err != nil {
+		return true
+	}
+	ch := f.Chain
+	var mu sync.Mutex
+	phase, rescans, first := 1, 0, true
+	var heldTx chainhash.Hash
+	afterSecond := map[chainhash.Hash]bool{}
+	entered, release := make(chan struct{}), make(chan struct{})
+	ch.SendHook = func(tx *wire.MsgTx) error {
+		mu.Lock()
+		isFirst := first
+		first = false
+		if isFirst {
+			heldTx = tx.TxHash()
+		}
+		if phase == 2 {
+			afterSecond[tx.TxHash()] = true
+		}
+		mu.Unlock()
+		if isFirst {
+			close(entered)
+			select {
+			case <-release:
+			case <-time.After(120 * time.Second):
+			}
+		}
+		return chain.ErrTxAlreadyInMempool
+	}
+	// DuringRescan runs before the RescanFinished of that rescan is emitted; the only
+	// pass that exists then is blocked in the held hand-over, so every hand-over
+	// stamped phase 2 started after the second resynchronisation finished
+	ch.DuringRescan = func() {
+		mu.Lock()
+		rescans++
+		if rescans == 2 {
+			phase = 2
+		}
+		mu.Unlock()
+	}
+	restore := func() {
+		ch.SendHook, ch.DuringRescan = nil, nil
+		for i := 0; i < 20000 && resendRunning(f.W); i++ {
+			time.Sleep(time.Millisecond)
+		}
+	}
+	released := false
+	defer func() {
+		if !released {
+			close(release)
+		}
+		restore()
+	}()
+	missing := func() *chainhash.Hash {
+		mu.Lock()
+		defer mu.Unlock()
+		for h := range want {
+			if !afterSecond[h] {
+				h := h
+				return &h
+			}
+		}
+		return nil
+	}
+	if err := f.W.Rescan([]btcutil.Address{own}, nil); err != nil {
+		fail("c20:harness-rescan", err.Error())
+		return false
+	}
+	idle := 0
+wait1:
+	for idle < 20000 {
+		select {
+		case <-entered:
+			break wait1
+		case <-time.After(time.Millisecond):
+		}
+		if resendRunning(f.W) {
+			idle = 0
+		} else {
+			idle++
+		}
+	}
+	if idle >= 20000 {
+		fail("c20:not-reoffered-after-resync", fmt.Sprintf("a rescan of the running wallet finished but none of its %d unconfirmed transactions was offered to the backend (no rebroadcast goroutine present for 20 s)", len(want)))
+		return false
+	}
+	if err := f.W.Rescan([]btcutil.Address{own}, nil); err != nil {
+		fail("c20:harness-rescan", err.Error())
+		return false
+	}
+	// give the pass of the second resynchronisation time to run next to the held one
+	// (it is not held); then let the first pass continue.  Waiting here decides nothing.
+	for i := 0; i < 3000 && missing() != nil; i++ {
+		time.Sleep(time.Millisecond)
+	}
+	mu.Lock()
+	second := phase == 2
+	mu.Unlock()
+	close(release)
+	released = true
+	if !second {
+		// the second rescan never reached the backend: nothing to judge
+		r.Hit("overlapping-resyncs-second-not-started", 1)
+		return true
+	}
+	idle = 0
+	for idle < 20000 && missing() != nil {
+		time.Sleep(time.Millisecond)
+		if resendRunning(f.W) {
+			idle = 0
+		} else {
+			idle++
+		}
+	}
+	if m := missing(); m != nil {
+		mu.Lock()
+		held := heldTx
+		mu.Unlock()
+		fail("c20:not-reoffered-after-resync", fmt.Sprintf("two rescans of the running wallet finished one after the other; unconfirmed transaction %v was not offered to the backend after the second one finished (the hand-over of %v for the first was still in flight then; no rebroadcast goroutine present for 20 s)", m, held))
+		return false
+	}
+	*log = append(*log, fmt.Sprintf("two overlapping resynchronisations: %d unconfirmed transactions re-offered after the second", len(want)))
+	r.Hit("overlapping-resyncs-checked", 1)
+	return true
 }
 
 // reoffer calls the wallet's rebroadcast synchronously (hook) with an answer
@@ -672,6 +822,7 @@ func main() {
 	r.Require("failed-broadcasts-left-no-trace", 40)
 	r.Require("accepted-broadcasts-recorded", 40)
 	r.Require("reoffer-passes", 20)
+	r.Require("overlapping-resyncs-checked", 2)
 	r.Require("reoffer-passes-with-rejection", 5)
 	r.Require("mode:chained-send", 5)
 	os.Exit(r.Finish())
